@@ -249,6 +249,8 @@ pub struct World {
 
 static OP_START: AtomicU64 = AtomicU64::new(0);
 pub static CURRENT: Mutex<Option<(String, String)>> = Mutex::new(None); // (out path, description)
+/// (path for the trace of the running history, its lines so far) — written out by the watchdog on a hang
+pub static CURTRACE: Mutex<Option<(String, Vec<String>)>> = Mutex::new(None);
 
 fn now_ms() -> u64 {
     std::time::SystemTime::now().duration_since(std::time::UNIX_EPOCH).unwrap().as_millis() as u64
@@ -259,9 +261,15 @@ pub fn start_watchdog(limit_ms: u64) {
         std::thread::sleep(std::time::Duration::from_millis(200));
         let s = OP_START.load(Ordering::SeqCst);
         if s != 0 && now_ms() - s > limit_ms {
+            let mut tpath = String::new();
+            if let Some((tp, lines)) = CURTRACE.lock().unwrap().clone() {
+                if std::fs::write(&tp, lines.join("\n") + "\n").is_ok() {
+                    tpath = tp;
+                }
+            }
             if let Some((path, desc)) = CURRENT.lock().unwrap().clone() {
                 if let Ok(mut f) = std::fs::OpenOptions::new().create(true).append(true).open(&path) {
-                    let _ = writeln!(f, "{}", json!({"hang": true, "what": desc}));
+                    let _ = writeln!(f, "{}", json!({"hang": true, "property": "C08", "what": format!("operation did not return within the watchdog limit: {}", desc), "trace": tpath}));
                 }
             }
             eprintln!("HANG detected");
@@ -484,6 +492,9 @@ impl World {
     pub fn apply(&mut self, op: &Value) {
         self.op_index = self.trace.len();
         self.trace.push(op.clone());
+        if let Some((_, lines)) = CURTRACE.lock().unwrap().as_mut() {
+            lines.push(js(op));
+        }
         let kind = op["op"].as_str().unwrap().to_string();
         self.stat(&format!("op:{}", kind));
         {
@@ -2004,6 +2015,7 @@ pub fn main(args: &[String]) {
                     let _ = std::fs::remove_dir_all(&dir);
                     std::fs::create_dir_all(&dir).unwrap();
                 }
+                *CURTRACE.lock().unwrap() = Some((format!("{}/hang_{}_{}.trace", out, seed, h), vec![js(&json!({"replicas": nrep, "backend": backend}))]));
                 let mut w = World::new(nrep, &backend, &dir, light);
                 if perm != 0 {
                     for rp in &w.reps {
